@@ -310,7 +310,8 @@ def random_teardowns(seed, n):
     return scs
 
 
-def phase_check(run, pid, tier, seed, replay, scs, judge, identity, rule, faults=False):
+def phase_check(run, pid, tier, seed, replay, scs, judge, identity, rule, faults=False, fault_judge=None):
+    fault_judge = fault_judge or judge   # the fault stages are judged by monitors that do not consult the (fault-free) model
     run.assumptions += [
         "pass-level atomicity with cache reads as fresh as the store, except for the scripted third-party op placed between read and write",
         "API-server semantics of coq/theories/Api.v as implemented by the harness's recording server",
@@ -325,8 +326,8 @@ def phase_check(run, pid, tier, seed, replay, scs, judge, identity, rule, faults
         if scs[0].get("faults"):
             # a fault-stage replay: judged by the monitor only
             sc = dict(scs[0]); sc.pop("faults")
-            base = run_cases(run, [sc], judge, 2)
-            fault_stage(run, pid, tier, seed, base, judge, identity, only=scs[0]["faults"])
+            base = run_cases(run, [sc], fault_judge, 2)
+            fault_stage(run, pid, tier, seed, base, fault_judge, identity, only=scs[0]["faults"])
             return base
     results = run_cases(run, scs, judge, 2)
     run.cov["evaluations"] = len(results)
@@ -341,7 +342,7 @@ def phase_check(run, pid, tier, seed, replay, scs, judge, identity, rule, faults
             run.violation("corr:%s/phase model and implementation differ" % pid,
                           {"correspondence": "PhaseCorr.agree", "scenario": sc, "impl": obs}, False)
     if faults and not replay:
-        fault_stage(run, pid, tier, seed, results, judge, identity)
+        fault_stage(run, pid, tier, seed, results, fault_judge, identity)
     run.cov["rule"] = rule + "; distinct = (flavor, op, outcome, error class, done, write verbs with results)"
     run.cov["samples"] = [{"scenario": s, "impl": {k: o[k] for k in ("res", "err", "done", "events") if k in o}} for s, o, _ in results[:2]]
     return results
